@@ -60,6 +60,9 @@ def obligations(prop, tier):
         for n in ([2, 3] if quick else [2, 3, 4]):
             for k in (1, 2, 3, 2 ** n + 1):
                 out.append((f"kernel:batch_eval:{k}:{n}", {"kind": "batch", "n": n, "k": k, "fault": False}))
+    if prop == "C16":
+        for n in ([3] if quick else [3, 4]):
+            out.append((f"kernel:core:{n}", {"kind": "core", "n": n}))
     if prop == "C17":
         for n in ([2] if quick else [2, 3]):
             for k in (1, 2, 3, 5):
@@ -69,7 +72,132 @@ def obligations(prop, tier):
     return out
 
 
+def run_core(oid, params, tier, prop):
+    """C16 kernel: the REAL BackendZ3.add(track=True) / unsat_core on a real z3.Solver whose unsat_core() answer is replaced by an arbitrary
+    (symbolic) subset of the tracked assertions.  Symbolic configuration: which of the n constraints are added as an annotated variant,
+    and what was cached for the same Z3 term before (nothing / the plain twin through the term abstraction used by simplify / the plain
+    twin tracked in another solver).  Checked: every element returned is IDENTICALLY one of the ASTs given to add, exactly the reported
+    subset, no duplicates."""
+    import claripy
+    from pysym import engine as E
+
+    n = params["n"]
+    be = claripy.backends.z3
+    known = common.known_for(common.load_known(prop), oid)
+    sel = z3.BitVec("core_sel", n)
+    cfg = z3.BitVec("annotated", n)
+    pre = z3.BitVec("precache", 2)
+    zconsts = {"core_sel": sel, "annotated": cfg, "precache": pre}
+
+    class Tag(claripy.Annotation):
+        eliminatable = False
+        relocatable = True
+
+    vs = [claripy.BVS(f"kc{i}", 4, explicit_name=True) for i in range(n + 1)]
+
+    def plain(i):
+        return claripy.ULE(vs[i], vs[i + 1]) if i < n - 1 else claripy.UGT(vs[0], vs[n - 1])
+
+    def annotated(i):
+        a = vs[i].annotate(Tag())
+        return claripy.ULE(a, vs[i + 1]) if i < n - 1 else claripy.UGT(vs[0].annotate(Tag()), vs[n - 1])
+
+    class CoreSolver:
+        """a real z3.Solver; only unsat_core() is replaced"""
+
+        def __init__(self, real):
+            self.real = real
+            self.chosen = None
+
+        def __getattr__(self, k):
+            return getattr(self.real, k)
+
+        def unsat_core(self):
+            lits = [impl.children()[0] for impl in self.real.assertions()]
+            self.chosen = [i for i in range(len(lits)) if E.ENG.branch(z3.Extract(i, i, sel) == 1)]
+            return [lits[i] for i in self.chosen]
+
+    def build():
+        E.ENG.assume(z3.ULE(pre, 2))
+        be.downsize()
+        use_ann = [E.ENG.branch(z3.Extract(i, i, cfg) == 1) for i in range(n)]
+        pc = E.ENG.concretize(pre, signed=False)
+        cons = [annotated(i) if use_ann[i] else plain(i) for i in range(n)]
+        twins = [plain(i) for i in range(n)]
+        if pc == 1:
+            for t in twins:
+                be._abstract(be.convert(t))          # what BackendZ3.simplify does with its result
+        elif pc == 2:
+            other = z3.Solver(ctx=be._context)
+            be.add(other, twins, track=True)
+        s = CoreSolver(z3.Solver(ctx=be._context))
+        be.add(s, cons, track=True)
+        core = be.unsat_core(s)
+        return cons, core, s.chosen
+
+    def check(path, s, out):
+        if path.kind == "exc":
+            e = path.result
+            return [Fail("exception", f"raised {type(e).__name__}: {str(e)[:160]}", None, known_key="exc")]
+        cons, core, chosen = out
+        fails = []
+        want = [cons[i] for i in chosen]
+        if len(core) != len(want) or any(all(c is not w for w in want) for c in core) or any(all(c is not w for c in core) for w in want):
+            fails.append(Fail("membership", f"unsat_core returned {[repr(c)[:60] + ' ' + repr(tuple(map(repr, getattr(c.args[0], 'annotations', ())))) for c in core]} "
+                                            f"for the tracked subset {[repr(w)[:60] for w in want]}: an element is not (identically) a constraint that was added"))
+        return fails
+
+    def make_case(vals, f):
+        return {"harness": "harness.p_z3kernel", "params": params, "vals": vals, "obligation": oid, "fail_kind": f.kind, "detail": f.detail[:300]}
+
+    return symrun.run(oid, width=24, zconsts=zconsts, build=build, check=check, make_case=make_case, max_paths=4000, known=known,
+                      sample={"obligation": oid}, reset=False)
+
+
+def _replay_core(case):
+    """native: real z3 solver; the 3-way conflict makes the whole set the core; configuration from the counterexample"""
+    import claripy
+
+    params, vals = case["params"], case["vals"]
+    n = params["n"]
+    be = claripy.backends.z3
+    be.downsize()
+    cfg, pc = int(vals.get("annotated", 0)), int(vals.get("precache", 0))
+
+    class Tag(claripy.Annotation):
+        eliminatable = False
+        relocatable = True
+
+    vs = [claripy.BVS(f"kc{i}", 4, explicit_name=True) for i in range(n + 1)]
+
+    def plain(i):
+        return claripy.ULE(vs[i], vs[i + 1]) if i < n - 1 else claripy.UGT(vs[0], vs[n - 1])
+
+    def annotated(i):
+        a = vs[i].annotate(Tag())
+        return claripy.ULE(a, vs[i + 1]) if i < n - 1 else claripy.UGT(vs[0].annotate(Tag()), vs[n - 1])
+
+    cons = [annotated(i) if (cfg >> i) & 1 else plain(i) for i in range(n)]
+    twins = [plain(i) for i in range(n)]
+    if pc == 1:
+        for t in twins:
+            be._abstract(be.convert(t))
+    elif pc == 2:
+        other = z3.Solver(ctx=be._context)
+        be.add(other, twins, track=True)
+    s = z3.Solver(ctx=be._context)
+    be.add(s, cons, track=True)
+    if s.check() != z3.unsat:
+        return {"violated": False, "detail": "constraints satisfiable natively"}
+    core = be.unsat_core(s)
+    bad = [c for c in core if all(c is not w for w in cons)]
+    return {"violated": bool(bad), "detail": f"annotated={cfg:b} precache={pc}: unsat_core returned {len(core)} elements, {len(bad)} of them not identically an added constraint"
+                                             + (f" (e.g. {bad[0]!r} with operand annotations {[a.annotations for a in bad[0].args]})" if bad else "")}
+
+
 def run_obligation(oid, params, tier, prop):
+    if params.get("kind") == "core":
+        return run_core(oid, params, tier, prop)
     import claripy
     import claripy.backends.backend_z3 as bz
     from claripy.errors import ClaripyError, ClaripySolverInterruptError
@@ -204,6 +332,8 @@ def replay(case):
     from claripy.errors import ClaripyError, ClaripySolverInterruptError
 
     params, vals = case["params"], case["vals"]
+    if params.get("kind") == "core":
+        return _replay_core(case)
     n, kind = params["n"], params["kind"]
     size = 1 << n
     Sv = int(vals.get("S", 0))
